@@ -464,6 +464,33 @@ func rulePoolEscape(c *Ctx) {
 			key := fmt.Sprintf("%s:put#%d", fnName(fn), k)
 			obj := stripValue(ci.Common().Args[1])
 			derived := map[ssa.Value]bool{obj: true}
+			fn := fn
+			// a Put inside a (deferred) function literal: the object is a variable of the enclosing function, whose
+			// returns are the ones to look at
+			if u, isU := obj.(*ssa.UnOp); isU && u.Op == token.MUL {
+				if fv, isFV := u.X.(*ssa.FreeVar); isFV {
+					if par := fv.Parent().Parent(); par != nil {
+						for _, in2 := range instrsOf(par) {
+							mc, isMC := in2.(*ssa.MakeClosure)
+							if !isMC || mc.Fn != ssa.Value(fv.Parent()) {
+								continue
+							}
+							for i, v := range fv.Parent().FreeVars {
+								if v == fv && i < len(mc.Bindings) {
+									cell := mc.Bindings[i]
+									fn = par
+									derived = map[ssa.Value]bool{}
+									for _, r := range referrers(cell) {
+										if ld, isLd := r.(*ssa.UnOp); isLd && ld.Op == token.MUL {
+											derived[ld] = true
+										}
+									}
+								}
+							}
+						}
+					}
+				}
+			}
 			for changed := true; changed; {
 				changed = false
 				for _, in2 := range instrsOf(fn) {
